@@ -559,6 +559,30 @@ def crossing_labels(rng, items, nq, alphabet):
     return labels
 
 
+def gen_reuse_target(rng):
+    """a -- control, b -- wire that moves away (b -> c) and comes back (c -> b); after the second Move qubit b is touched only as
+    the second operand of two-qubit gates and no observable acts on it: the reset prepared on b is NOT final."""
+    nq = 3 + int(rng.integers(0, 2))
+    a, b, c = 0, 1, 2
+    items = [rand_gate(rng, 1)]
+    if rng.integers(0, 2):
+        items.append(["g", "cx", [], [a, b]])
+    items.append(["g", ["rx", "ry"][int(rng.integers(0, 2))], [fr(ANGLES[int(rng.integers(0, 4))])], [b]])
+    items.append(["move", b, c])
+    for _ in range(int(rng.integers(0, 2))):
+        items.append(["g", ["ry", "rx"][int(rng.integers(0, 2))], [fr(ANGLES[int(rng.integers(0, 4))])], [c]])
+    items.append(["move", c, b])
+    ctrl = [a] + ([3] if nq == 4 else [])
+    if nq == 4:
+        items.insert(0, ["g", "h", [], [3]])
+    for _ in range(int(rng.integers(1, 4))):
+        items.append(["g", ["cx", "cz"][int(rng.integers(0, 2))], [], [ctrl[int(rng.integers(0, len(ctrl)))], b]])
+        if rng.integers(0, 3) == 0:
+            items.append(["g", ["h", "s", "sx"][int(rng.integers(0, 3))], [], [a]])
+    pi = [int(x) for x in rng.permutation(nq)]
+    return nq, relabel_items(items, pi), [pi[b], pi[c]], pi
+
+
 FIXED = [
     # the F2 witness of DESIGN section 6
     dict(nq=2, items=[["g", "h", [], [0]], ["g", "cx", [], [0, 1]], ["cut", 0], ["g", "rx", [fr(0.5)], [0]],
@@ -593,18 +617,25 @@ FIXED = [
     # a barrier before anything else, then a cut: the destination's leading reset comes after an early barrier elsewhere
     dict(nq=2, items=[["barrier", [1]], ["g", "h", [], [0]], ["cut", 0], ["g", "cx", [], [0, 1]]], obs=["ZI", "II"], flow="single",
          labels=None, num_samples="inf", seed=13),
+    # re-use 1 -> 2 -> 1; afterwards qubit 1 is only the TARGET of two-qubit gates and carries the identity: the reset that
+    # the second Move prepares on it (bare [Reset] for maps 0 and 6) is not final
+    dict(nq=3, items=[["g", "ry", [fr(0.7)], [0]], ["g", "cx", [], [0, 1]], ["g", "rx", [fr(0.4)], [1]], ["move", 1, 2],
+                      ["g", "ry", [fr(0.9)], [2]], ["move", 2, 1], ["g", "cx", [], [0, 1]], ["g", "cx", [], [0, 1]],
+                      ["g", "cz", [], [0, 1]]], obs=["IIX", "IIY"], flow="labels", labels="AAB", num_samples="inf", seed=15),
+    dict(nq=3, items=[["g", "h", [], [0]], ["g", "ry", [fr(0.5)], [1]], ["move", 1, 2], ["move", 2, 1], ["g", "cx", [], [0, 1]]],
+         obs=["IIZ", "IIX"], flow="single", labels=None, num_samples="inf", seed=16),
     # hand-placed fresh Move, three explicit labels, idle qubit 3
     dict(nq=4, items=[["g", "h", [], [2]], ["move", 2, 0], ["g", "cx", [], [0, 1]]], obs=["IIZZ", "IIXI"], flow="labels",
          labels="ACBA", num_samples="inf", seed=14),
 ]
 
 
-def pick_triples(rng, run, per_problem):
+def pick_triples(rng, run, per_problem, nz_pick=2):
     triples = []
     nz = len(run["sorted_samples"])
     for label, groups in run["groups"].items():
         for j in range(len(groups)):
-            zs = sorted({int(z) for z in rng.integers(0, nz, size=2)} | {0})
+            zs = sorted({int(z) for z in rng.integers(0, nz, size=nz_pick)} | {0})
             for z in zs:
                 triples.append((label, z, j))
     if len(triples) > per_problem:
@@ -616,7 +647,7 @@ def pick_triples(rng, run, per_problem):
     return triples
 
 
-def emit_problem(w, rng, stream, desc, per_problem):
+def emit_problem(w, rng, stream, desc, per_problem, nz_pick=2):
     ncuts = sum(1 for x in desc["items"] if x[0] in ("cut", "move"))
     if stream != "fixed" and desc["num_samples"] == "inf" and (ncuts >= 4 or (ncuts == 3 and rng.integers(0, 4))):
         desc["num_samples"] = int(rng.integers(1, 9))     # 8^k samples x groups x partitions: keep the exact budget for small k
@@ -642,7 +673,7 @@ def emit_problem(w, rng, stream, desc, per_problem):
     ok_shape = all(len(run["subexps"][l]) == len(run["sorted_samples"]) * len(run["groups"][l]) for l in run["groups"])
     w.contract("experiments_are_samples_x_groups_per_partition", ok_shape and run["ncoeff"] == len(run["sorted_samples"]))
     n = 0
-    for (label, z, j) in pick_triples(rng, run, per_problem):
+    for (label, z, j) in pick_triples(rng, run, per_problem, nz_pick):
         try:
             case, contracts = subexperiment_case(desc, run, label, z, j)
         except Exception as e:  # noqa: BLE001  (e.g. a private helper was renamed: report, do not crash the generator)
@@ -680,6 +711,7 @@ def generate(rng, tier, outdir):
     n_fresh_labels = 10 if quick else 140
     n_dynamic = 12 if quick else 160
     n_reuse = 10 if quick else 120
+    n_reuse_target = 8 if quick else 100
     per_problem = 8 if quick else 12
 
     for desc in FIXED:
@@ -777,6 +809,19 @@ def generate(rng, tier, outdir):
         desc = dict(nq=nq, nc=nc, items=items, obs=obs, flow="single", labels=None, num_samples=ns, seed=int(rng.integers(0, 2**31)))
         emit_problem(w, rng, "dynamic_unseparated", desc, per_problem)
 
+    # re-use chains whose re-used qubit is afterwards only the second operand of two-qubit gates, identity on it
+    for it in range(n_reuse_target):
+        nq, items, quiet, pi = gen_reuse_target(rng)
+        obs = identity_on(rand_obs(rng, nq, ["dense", "sparse"][it % 2]), quiet)
+        flow = ["labels", "single", "auto"][it % 3]
+        labels = None
+        if flow == "labels":
+            lab = ["A"] * nq
+            lab[pi[2]] = "B"                      # the temporary qubit alone: both Moves are cut
+            labels = "".join(lab)
+        desc = dict(nq=nq, items=items, obs=obs, flow=flow, labels=labels, num_samples="inf", seed=int(rng.integers(0, 2**31)))
+        emit_problem(w, rng, "moves_reuse_target", desc, per_problem + 4, nz_pick=5)
+
     for it in range(n_reuse):
         nq, items, _ = gen_moves(rng, reuse=True)
         obs = rand_obs(rng, nq, ["dense", "sparse", "identity"][it % 3])
@@ -791,7 +836,8 @@ def generate(rng, tier, outdir):
         "expand_observables; (moves_fresh) hand-placed Moves onto fresh qubits from abandoned qubits; (moves_obs_on_source) the same with "
         "observables that are NOT the identity on the abandoned source qubits (counts as a use); (moves_fresh_labels) fresh Moves with explicit 2-3 letter / integer labels, identity on "
         "abandoned qubits, optional barrier and idle qubit; (dynamic_unseparated) unseparated circuits with own classical bits, "
-        "mid-circuit measurements, user resets and barriers; (moves_reuse) Move chains that re-use qubits. Markers may be interleaved "
+        "mid-circuit measurements, user resets and barriers; (moves_reuse) Move chains that re-use qubits; (moves_reuse_target) chains b->c->b after which "
+        "the re-used qubit is only the second operand of two-qubit gates and carries the identity (exact budget, 6 samples per group). Markers may be interleaved "
         "across qubits (a, b, a). EVERY generated case is judged (contract judge_accepts_clean_case). Observables: 1..3 Pauli strings, dense / single-letter / identity-only (identity on whole partitions); "
         "flows: partition_problem with automatic labels, with explicit random A/B labels (crossing gates are cut too), and the "
         "unseparated call; budgets inf and 1..6. Per problem the sampling is replayed under the same numpy seed and for up to "
